@@ -233,6 +233,38 @@ def run(tier, seed):
             bterms.append("(0, %s, %s, %s)" % (coq_opts(file_o), coq_opts(arg_o), coq_eff(got)))
             bmetas.append(dict(meta, got=got))
 
+        # a cluster built from a configuration AND an explicit storage object (or whose storage is replaced later): the
+        # explicit object is the cluster's storage, and the cluster's dump describes that object and nothing of the file
+        cpairs = [(a, b) for a in fs for b in fs if (a["meta"] is not None or a["cache"] is not None or a["ro"] is not None)]
+        rng.shuffle(cpairs)
+        stats["cluster_overrides"] = 0
+        for file_o, arg_o in cpairs[:(60 if tier == "quick" else 1200)]:
+            how = rng.choice(["constructor", "assigned"])
+            meta = {"kind": "filesystem", "form": "cluster-override:" + how, "file": file_o, "args": arg_o}
+            try:
+                st = build("filesystem", "args", none, arg_o)
+                ccfg = {"name": "fc", "storage": to_config("filesystem", file_o, paths), "runner": {"type": "local"}}
+                if how == "constructor":
+                    cl_ = FunctionCluster(config=ccfg, storage=st)
+                else:
+                    cl_ = FunctionCluster(config=ccfg)
+                    cl_.storage = st
+                got = observe(cl_.storage, paths)
+                want = observe(st, paths)
+                d = cl_.to_dict()["storage"]
+                stats["cluster_overrides"] += 1
+                dterms.append("(0, %s, %s)" % (coq_eff(got), coq_opts(observe_dict(d, paths))))
+                dmetas.append(dict(meta, got=got, dump=d))
+                got2 = observe(FunctionCluster(config=cl_.to_dict()).storage, paths)
+                if got != want:
+                    rep.violation("C18:explicit-storage-not-used", "a cluster given the storage %s explicitly uses %s" % (want, got), dict(meta, got=got))
+                if got2 != got:
+                    feat = [k for k in got if got[k] != got2.get(k)]
+                    rep.violation("C18:rebuilt-from-dump-differs:cluster:%s" % "+".join(feat), "cluster with explicit storage %s (configuration file says %s) dumps its storage as %s; rebuilt from the dump it has %s" % (got, file_o, d, got2),
+                                  dict(meta, got=got, dump=d, rebuilt=got2))
+            except Exception as e:
+                rep.violation("C18:cluster-override-raised", "%s: %s" % (type(e).__name__, str(e)[:200]), meta)
+
         # the settings mean what they say: behaviour of a cluster configured from a file and of the one rebuilt from the dump
         def behave(env, expect, meta, label):
             m.Environment.set(env)
